@@ -177,6 +177,7 @@ func (v *verifyCtx) enterLoop(x *Exec, st *State, fr *Frame, b *ssa.BasicBlock, 
 	for _, inv := range lc.Inv {
 		st.Assume = append(st.Assume, Implies(st.Branch(), e.Formula(inv)))
 	}
+	x.record(Oblig{Name: fmt.Sprintf("%s#loop%d.cover.invariant", fnName(v.fn), n), Cond: False(), PC: st.PC(), Kind: "cover", Fn: fnName(v.fn)})
 	if lc.Dec != "" {
 		m, _ := e.Term(lc.Dec)
 		if fr.measures == nil {
@@ -521,6 +522,7 @@ func (x *Exec) verifyCase(fn *ssa.Function, c *FnContract, caseExpr string, op i
 		case oReturn:
 			rets := retValues(fn, o.Ret)
 			e := ctx.postEnv(x, o.St, rets, o.Fr)
+			x.record(Oblig{Name: name + "#cover.return" + suffix, Cond: False(), PC: o.St.PC(), Kind: "cover", Fn: name})
 			if c.HasPanics {
 				pe := ctx.postEnv(x, ctx.pre, nil, nil)
 				var ds []*Term
